@@ -188,3 +188,21 @@ package node
 //@   ensures [every_local_subscriber] result == nil ==> forall i int, p gen.PID :: 0 <= i && i < len(lastConsumers()) && lastConsumers()[i] == p && p.Node == n.name ==> evSent(p) == old(evSent(p)) + 1
 //@   ensures [token_gate] n.creation > 0 && from.Node == n.name && (!smHas(n.events, any(message.Event)) || smVal(n.events, any(message.Event)).(*eventOwner).token != token) ==> result != nil
 //@   ensures [refused_publishes_nothing] result != nil ==> forall p gen.PID :: evSent(p) == old(evSent(p))
+
+// cron job table: a removed or disabled job carries the disable flag, which is what the minute
+// timer checks before firing a job that is already spooled.
+//@ spec func cronJobsWF(c *cron) bool = c.jobs != nil && (forall k gen.Atom :: has(c.jobs, k) ==> c.jobs[k] != nil)
+//@ func (c *cron) RemoveJob
+//@   props C20
+//@   mode int
+//@   requires [wf] cronJobsWF(c)
+//@   ensures [unknown] !old(has(c.jobs, name)) ==> result == gen.ErrUnknown
+//@   ensures [removed_and_disabled] old(has(c.jobs, name)) ==> result == nil && !has(c.jobs, name) && old(c.jobs[name]).disable
+//@   ensures [others_kept] forall k gen.Atom :: k != name ==> has(c.jobs, k) == old(has(c.jobs, k)) && c.jobs[k] == old(c.jobs[k])
+//@   ensures [wf_kept] cronJobsWF(c)
+//@ func (c *cron) DisableJob
+//@   props C20
+//@   mode int
+//@   requires [wf] cronJobsWF(c)
+//@   ensures [unknown] !old(has(c.jobs, name)) ==> result == gen.ErrUnknown
+//@   ensures [disabled] old(has(c.jobs, name)) ==> result == nil && has(c.jobs, name) && c.jobs[name].disable
